@@ -16,7 +16,8 @@
 (***************************************************************************)
 EXTENDS Reader
 
-CONSTANT MaxFaults
+CONSTANT MaxFaults,
+         BlocksOnly     \* TRUE: documents made of nested blocks only (object-level faults at depth)
 
 VARIABLES faults, variant, sealed
 
@@ -80,6 +81,7 @@ Inject ==
     /\ UNCHANGED <<stack, hist, done, target, variant, sealed>>
 
 Variants == {"none", "upper-values", "upper-keys", "hidden", "aslist"}
+VariantsNone == {"none"}
 
 Seal == /\ done /\ ~sealed
         /\ sealed' = TRUE
@@ -88,7 +90,8 @@ Seal == /\ done /\ ~sealed
 
 FInit == Init /\ faults = <<>> /\ variant = "none" /\ sealed = FALSE
 Inject2 == Inject
-FNext == (Build /\ UNCHANGED <<faults, variant, sealed>>) \/ (Finish /\ UNCHANGED <<faults, variant, sealed>>)
+BuildBlocks == ~done /\ Steps < target /\ (Open \/ End)
+FNext == ((IF BlocksOnly THEN BuildBlocks ELSE Build) /\ UNCHANGED <<faults, variant, sealed>>) \/ (Finish /\ UNCHANGED <<faults, variant, sealed>>)
          \/ Inject \/ Inject2 \/ Seal
 
 \* what validate must return: no message iff no fault; a message naming every fault's keyword / object
